@@ -17,7 +17,7 @@ def main():
             case = fit(ab, cm, random.Random(int(__import__('hashlib').sha256(repr((ab.name, ab.rules, seed)).encode()).hexdigest()[:8], 16)))
             if case is None: return False
             lex = default_lex(cm["terms"])
-            ins = make_inputs(case, rng, cm["lexer"] == "generated", nin, exl)
+            ins = make_inputs(case, rng, cm["lexer"] == "generated", nin * 4 if ab.name == "rand-ops" else nin, exl)
             name = f"{cid}:{ab.name}:{cname}"
             write_case(f, cid, cname, cm, case, lex, ins)
             meta[str(cid)] = {"name": ab.name, "carrier": cname, "rules": [[l, r] for l, r in ab.rules], "prec": ab.prec, "rule_prec": {str(k): v for k, v in ab.rule_prec.items()}, "info": case["info"], "n_inputs": len(ins)}
@@ -26,6 +26,10 @@ def main():
             has_err = any(ERR in r for _, r in ab.rules)
             for cname in (["E", "B"] if has_err else ["A", "E", "B", "C"]):
                 emit(ab, cname)
+        rng_ops = random.Random(seed * 7919 + 13)        # its own stream: the other families keep their cases
+        for i in range(max(12, ng // 8)):
+            cname = rng_ops.choice(["A", "E", "B", "C"])
+            emit(random_operators(rng_ops, carriers[cname]), cname)
         for i in range(ng):
             cname = rng.choice(["A", "A", "E", "E", "B", "C"])
             ab = random_abstract(rng, carriers[cname], allow_err=(cname in ("E", "B") and rng.random() < 0.5))
